@@ -529,36 +529,56 @@ def clearUndoKeys (undo : List (Nat × List CacheVal)) (minHeight : Int) : List 
   let ks := (undo.map (·.1)).mergeSort (fun a b => decide (a ≤ b))
   ks.takeWhile (fun h => decide ((h : Int) < minHeight))
 
+/-- the history state after `History.open_db`'s `clear_excess` -/
+def openHistState (p : Store) : HState :=
+  match clearExcessEffect p (p.hstate.getD {}) (p.ustate.getD {}).flushCount with
+  | some _ => { (p.hstate.getD {}) with flushCount := (p.ustate.getD {}).flushCount }
+  | none => p.hstate.getD {}
+
+/-- the store after `clear_excess` -/
+def openStore1 (p : Store) : Store :=
+  applyEffects p (clearExcessEffect p (p.hstate.getD {}) (p.ustate.getD {}).flushCount).toList
+
+/-- the effects of `clear_excess_undo_info` -/
+def openUndoEffects (cfg : Cfg) (p1 : Store) (height : Int) : List Effect :=
+  if (clearUndoKeys p1.undo (height - cfg.reorgLimit + 1)).isEmpty then []
+  else [.utxoBatch [] [] [] (clearUndoKeys p1.undo (height - cfg.reorgLimit + 1)) [] none]
+
+/-- the persistent store `_open_dbs` leaves behind -/
+def openStore (cfg : Cfg) (p : Store) : Store :=
+  applyEffects (openStore1 p) (openUndoEffects cfg (openStore1 p) (p.ustate.getD {}).height)
+
+/-- `DB.state` right after `_open_dbs` (flush count taken from the history DB) -/
+def openState (p : Store) (compacting : Bool) : CState × HState :=
+  let hs2 : HState := if compacting then openHistState p
+                      else { openHistState p with compFlushCount := -1, compCursor := -1 }
+  ({ (p.ustate.getD {}) with flushCount := hs2.flushCount }, hs2)
+
+/-- `_read_tx_counts` (`keep = some l`: same process, `tx_counts` kept) -/
+def openTxCounts (p2 : Store) (st1 : CState) (keep : Option (List Nat)) : Option (List Nat) :=
+  match keep with
+  | some l => some l
+  | none =>
+    if (p2.txcounts.take (st1.height + 1).toNat).length == (st1.height + 1).toNat &&
+        ((p2.txcounts.take (st1.height + 1).toNat).getLast?.getD 0) == st1.txCount
+    then some (p2.txcounts.take (st1.height + 1).toNat) else none
+
 /-- `_open_dbs(for_sync, compacting)` on a persistent store: the effects it performs and the fresh
     memory.  `keepTxCounts = some l` models a re-open in the same process (`tx_counts` kept). -/
 def openDbs (cfg : Cfg) (p : Store) (compacting : Bool) (keepTxCounts : Option (List Nat)) :
     Option (List Effect × Sys) :=
-  let st0 : CState := p.ustate.getD {}
-  let hs0 : HState := p.hstate.getD {}
-  let e1 := clearExcessEffect p hs0 st0.flushCount
-  let hs1 : HState := match e1 with
-    | some _ => { hs0 with flushCount := st0.flushCount }
-    | none => hs0
-  let p1 := applyEffects p e1.toList
-  let hs2 : HState := if compacting then hs1 else { hs1 with compFlushCount := -1, compCursor := -1 }
-  let st1 : CState := { st0 with flushCount := hs2.flushCount }
-  let delKeys := clearUndoKeys p1.undo (st1.height - cfg.reorgLimit + 1)
-  let e2 : List Effect := if delKeys.isEmpty then [] else [.utxoBatch [] [] [] delKeys [] none]
-  let p2 := applyEffects p1 e2
-  let size := (st1.height + 1).toNat
-  let txc := match keepTxCounts with
-    | some l => some l
-    | none =>
-      let l := p2.txcounts.take size
-      if l.length == size && (l.getLast?.getD 0) == st1.txCount then some l else none
-  match txc with
+  match openTxCounts (openStore cfg p) (openState p compacting).1 keepTxCounts with
   | none => none
   | some l =>
-    some (e1.toList ++ e2,
-      { p := p2,
-        m := { st := st1, dbst := st1, fsHeight := st1.height, fsTxCount := st1.txCount,
-               txCounts := l, histFlush := hs2.flushCount, compFlush := hs2.compFlushCount,
-               compCursor := hs2.compCursor } })
+    some ((clearExcessEffect p (p.hstate.getD {}) (p.ustate.getD {}).flushCount).toList ++
+            openUndoEffects cfg (openStore1 p) (p.ustate.getD {}).height,
+      { p := openStore cfg p,
+        m := { st := (openState p compacting).1, dbst := (openState p compacting).1,
+               fsHeight := (openState p compacting).1.height,
+               fsTxCount := (openState p compacting).1.txCount,
+               txCounts := l, histFlush := (openState p compacting).2.flushCount,
+               compFlush := (openState p compacting).2.compFlushCount,
+               compCursor := (openState p compacting).2.compCursor } })
 
 /-! ### read path -/
 
